@@ -4,6 +4,11 @@ HERE = os.path.dirname(os.path.dirname(os.path.abspath(__file__)))
 BASE = json.load(open("/root/.vp/BASELINE.json"))["cmd"]
 
 CHECKS = {
+ "C17": dict(
+   technique="explicit-state BFS over valid histories (plus five named stages) x exhaustive catalogue of invalid calls injected at every position; decided by bit-identity of the canonical object graph with the pre-call twin, else by exhaustive continuation comparison",
+   text="For every policy combination, at every state of the bounded search and in five named stages (unfitted, fitted, fitted+partial_fit, cold arm listed last / first), every invalid call of the catalogue (~30-42 classes over all eight public methods) is injected once. If the library rejects it, the arm list must be unchanged and the complete object graph must be bit-identical to the twin copied before the call (identical graphs have identical futures); if it differs, every continuation up to depth 2 must give identical outputs.",
+   note="errors raised during prediction are compared after aligning generator positions; calls the library accepts are counted, not judged",
+   ref="DESIGN.md section 7 (C17)"),
  "C15": dict(
    technique="bounded exhaustive enumeration of simulations (bandit lists x data sets x test_size x split mode x every batch size x is_quick) with a differential oracle: replay of each run through the public API on copies taken before the Simulator was built",
    text="Every policy combination singly and every ordered pair of Radius/KNearest bandits with different metrics is simulated over the full product of the parameter alphabet (including every batch size 0..|test|); each run is replayed through fit/predict/predict_expectations/partial_fit with the recomputed split and must report the same predictions (and expectations for deterministic policies).",
